@@ -79,12 +79,16 @@ CLAIMS["C07"] = dict(
     note=TRUST + "The induction over the packet history is an argument in DESIGN.md, not a machine-checked lemma. Decoders covered are listed in the evidence (functions_under_contract); the others are not decided.",
     design="DESIGN.md section 4, C07",
 )
+B = (" A BOUNDED stand-in (labelled bounded, never counted among the obligations discharged, reported separately in the evidence under "
+     "bounded_stand_ins) runs the real code over a finite grid for the half the contracts cannot state: ")
+
 CLAIMS["C03"] = dict(
     text=("Deductive proof, for the packetizers whose payloads are windows of the input (rtpfragmented, rtpklv, rtplpcm, rtpsimpleaudio), "
           "that the emitted payloads tile the input frame in order with no gap or overlap (same backing array, offset j*limit, lengths summing "
           "to the frame length), which is exactly what the corresponding depacketizer concatenates; and, for the AV1 packetizer, that a packet is closed "
-          "with the 'continues in next packet' flags (Y, then Z) exactly when a proper part of the current OBU was written into it (assertion at the two closure calls)."),
-    note=TRUST + "Only the encoder half (tiling, AV1 aggregation flags) is machine-checked; the decoder's concatenation is covered by its C08 contract, and the remaining codecs (H264/H265/VP8/VP9/MPEG/AC-3/M-JPEG bit-level headers, AV1 LEB128 sizes) are not decided for round-trip identity.",
+          "with the 'continues in next packet' flags (Y, then Z) exactly when a proper part of the current OBU was written into it (assertion at the two closure calls)."
+          + B + "Encode -> RTP Marshal/Unmarshal -> Decode returns the encoded units with the marked last packet, for 12 codecs, unit sizes around every multiple of three payload sizes, 1-5 units per call (about 5700 runs)."),
+    note=TRUST + "Only the encoder half (tiling, AV1 aggregation flags) is machine-checked; the decoder's concatenation is covered by its C08 contract, and the remaining codecs (H264/H265/VP8/VP9/MPEG/AC-3/M-JPEG bit-level headers, AV1 LEB128 sizes) are decided for round-trip identity only on the bounded grid (not proved; AC-3, MPEG-1 audio, M-JPEG and VP9 not even there).",
     design="DESIGN.md section 4, C03",
 )
 
@@ -93,8 +97,10 @@ CLAIMS["C09"] = dict(
           "Session, Range, RTP-Info, WWW-Authenticate, Authorization and KeyMgmt headers, the key=value tokenizer, and every MIKEY payload "
           "parser (message, header, KEMAC, SP, T, RAND, key-data sub-payload) raises no run-time panic: every index, slice bound, nil "
           "dereference, conversion and make is an obligation discharged for all inputs and all loop iterations. The MIKEY length contracts "
-          "(consumed bytes within the buffer) are proved per payload kind and used at the dynamic call through the Payload interface."),
-    note=TRUST + "Round-trip identity, purity of Marshal and independence of map iteration order are NOT decided by this check (the order dependence of Transport/Range parsing is described in DESIGN.md section 5). Map iteration is modelled as yielding arbitrary key/value pairs; the iterator of strings.SplitSeq is assumed well behaved.",
+          "(consumed bytes within the buffer) are proved per payload kind and used at the dynamic call through the Payload interface. Also proved: Basic credentials "
+          "are split at the first colon, and every KEMAC key-data sub-payload is a function of its own bytes."
+          + B + "Unmarshal(Marshal(x)) == x, Marshal twice equal, value unchanged, over grids of all eight header types (about 236000 values) and 3024 MIKEY messages."),
+    note=TRUST + "Round-trip identity and purity of Marshal are decided only on the bounded grid (not proved); independence of map iteration order is NOT decided (the order dependence of Transport/Range parsing is described in DESIGN.md section 5). Map iteration is modelled as yielding arbitrary key/value pairs; the iterator of strings.SplitSeq is assumed well behaved.",
     design="DESIGN.md section 4, C09",
 )
 
@@ -164,8 +170,11 @@ CLAIMS["C05"] = dict(
           "the proof carries the parser's state-machine invariant (media state implies a last, non-nil media description; time-description state implies a time "
           "description) through the line loop (a range-over-func loop) and the two dispatch functions, with every helper under its own contract - and each of the "
           "22 format parsers, format.Unmarshal with its attribute helpers, and description.Media.Unmarshal never index, slice, dereference or allocate out of range for "
-          "any media description (zero-annotation sweep with inferred invariants; the LATM parser under a hand-written invariant)."),
-    note=TRUST + "Assumed: pion/sdp attribute constructors, strings/strconv specs, and that a StreamMuxConfig parsed by mediacommon has at least one program and layer. NOT decided: description.Session.Unmarshal2's loop over medias (needs per-implementation frames of Format.unmarshal), replaceSmartPayloadType's regexp index, equality of the re-parsed description and the marshal side.",
+          "any media description (zero-annotation sweep with inferred invariants; the LATM parser under a hand-written invariant). Also proved: the rtpmap/fmtp text used for a "
+          "payload type comes from the attribute whose first token denotes that number, and every media section is parsed into a zero Media."
+          + B + "Session.Marshal -> SDP parser -> Session.Unmarshal2 gives back title, medias and formats, and the parsed value marshals to the same SDP, over about 9200 descriptions "
+          "(the repository's own format table alone, in ordered pairs and spread over medias; per-codec parameter grids; session and media fields)."),
+    note=TRUST + "Assumed: pion/sdp attribute constructors, strings/strconv specs, and that a StreamMuxConfig parsed by mediacommon has at least one program and layer. NOT decided: description.Session.Unmarshal2's loop over medias (needs per-implementation frames of Format.unmarshal), replaceSmartPayloadType's regexp index; equality of the re-parsed description only on the bounded grid (not proved).",
     design="DESIGN.md section 8.2, C05",
 )
 
